@@ -117,7 +117,13 @@ func (in *inst) conn(id int) *net.Conn {
 func main() {
 	log.SetOutput(io.Discard)
 	rd := bufio.NewReaderSize(os.Stdin, 1<<20)
-	out := bufio.NewWriterSize(os.Stdout, 1<<20)
+	// The server code prints to os.Stdout in places: keep the protocol on the real stdout and
+	// point os.Stdout elsewhere.
+	realOut := os.Stdout
+	if devnull, derr := os.OpenFile(os.DevNull, os.O_WRONLY, 0); derr == nil {
+		os.Stdout = devnull
+	}
+	out := bufio.NewWriterSize(realOut, 1<<20)
 	defer out.Flush()
 	var in *inst
 	for {
